@@ -399,9 +399,26 @@ def wire_wf(res):
     return bad
 
 
+def _strip_ka(wire):
+    """periodic KEEPALIVEs are timing, not content: keep the handshake one only"""
+    if wire and isinstance(wire[0], list):
+        return [_strip_ka(w) for w in wire]
+    out, seen = [], False
+    for m in wire:
+        if m[0] == 4:
+            if seen:
+                continue
+            seen = True
+        out.append(m)
+    return out
+
+
 def diff_proj(exp, obs, keys=("wire", "cbs", "closed", "rets")):
     d = []
     for k in keys:
-        if exp[k] != obs[k]:
+        a, b = exp[k], obs[k]
+        if k == "wire":
+            a, b = _strip_ka(a), _strip_ka(b)
+        if a != b:
             d.append(k)
     return d
